@@ -18,13 +18,13 @@ package authority
 //@ func (*Cache).SetUntil
 //@   requires n != nil && real(expiresAt)
 //@   assert at call (*internal/authority.Cache).store#1: arg1 == key && arg2 == dsSet && arg3 == servers
-//@   assert at call (*internal/authority.Cache).store#1: inst(arg4) <= inst(expiresAt) && inst(arg4) <= inst(lastret("field internal/authority.Cache.now")) + 43200000000000 && inst(arg4) > inst(lastret("field internal/authority.Cache.now"))
+//@   assert at call (*internal/authority.Cache).store#1: inst(arg4) <= inst(entry_expiresAt) && inst(arg4) <= inst(lastret("field internal/authority.Cache.now")) + 43200000000000 && inst(arg4) > inst(lastret("field internal/authority.Cache.now"))
 //@   ensures calls("(*internal/authority.Cache).store") <= 1 && calls("field internal/authority.Cache.now") == 1
 //@
 //@ func (*Cache).Set
 //@   requires n != nil
-//@   assert at call (*internal/authority.Cache).store#1: arg1 == key && arg2 == dsSet && arg3 == servers && ttl > 0
-//@   assert at call (*internal/authority.Cache).store#1: inst(arg4) <= inst(lastret("field internal/authority.Cache.now")) + ttl && inst(arg4) <= inst(lastret("field internal/authority.Cache.now")) + 43200000000000
+//@   assert at call (*internal/authority.Cache).store#1: arg1 == key && arg2 == dsSet && arg3 == servers && entry_ttl > 0
+//@   assert at call (*internal/authority.Cache).store#1: inst(arg4) <= inst(lastret("field internal/authority.Cache.now")) + entry_ttl && inst(arg4) <= inst(lastret("field internal/authority.Cache.now")) + 43200000000000
 //@
 //@ func (*Cache).Get
 //@   requires n != nil
